@@ -128,7 +128,9 @@ def pBlock (dt nv nt : String) (ne : String := "0") (ng : String := "0") : P Blo
       gov := gov ++ [msgs]
     | l => throw s!"expected GOV got {l}"
   match ← nextLine with
-  | ["ENDBLOCK"] => pure { dt := dt, votes := votes, txs := txs, evid := evid, gov := gov }
+  | ["ENDBLOCK"] =>
+    let st ← get
+    pure { dt := dt, votes := votes, txs := txs, evid := evid, gov := gov, govIsAdmin := st.govAdmin }
   | l => throw s!"expected ENDBLOCK got {l}"
 
 /-! ### printing -/
@@ -200,10 +202,10 @@ def trigLines (env : Env) (s0 : App) (b : Block) : List String := Id.run do
   -- the proposals x/gov executes at the end of the block: numbered after the block's transactions
   for ms in b.gov do
     let pre := s
-    match App.handleList env.lim s .admin ms with
+    match App.handleList env.lim s (App.govSigner b) ms with
     | .ok s' =>
       s := s'
-      let t := (Trig.ofList env.lim pre .admin ms).1.eraseDups
+      let t := (Trig.ofList env.lim pre (App.govSigner b) ms).1.eraseDups
       if !t.isEmpty then
         res := res ++ [s!"TRIG {i}" ++ String.join (t.map (fun x => " " ++ trigName x))]
     | _ => pure ()
@@ -382,7 +384,7 @@ def lBlock (b : Block) : String :=
   s!"⟨{lInt b.dt}, " ++ lList (b.votes.map (fun v => s!"⟨{v.key}, {lInt v.power}, {lBool v.absent}⟩")) ++ ", " ++
   lList (b.txs.map (fun t => s!"⟨{lSigner t.signer}, {t.seqOff}, {lList (t.msgs.map lMsg)}⟩")) ++ ", " ++
   lList (b.evid.map (fun e => s!"⟨{e.key}, {lInt e.height}, {lInt e.power}⟩")) ++ ", " ++
-  lList (b.gov.map (fun ms => lList (ms.map lMsg))) ++ "⟩"
+  lList (b.gov.map (fun ms => lList (ms.map lMsg))) ++ ", " ++ lBool b.govIsAdmin ++ "⟩"
 
 def lErr (e : Err) : String :=
   let sp := match e.space with
